@@ -119,6 +119,23 @@ CHECKS['C06'] = _mc('aperture', 'DESIGN.md 5/C06',
   'Trusted: mock channels and server set below/above the balancer; settles only claimed for max_load > 2*min_load; C06.smoothed (between-ness of '
   'the published average) ties the published load to the true outstanding count.')
 
+_BAL_TECH = ('TLC exhaustive check of code-shaped HeapBalancer.tla (heap array algorithms, downq, Idle/Penalty, removal/drain, random '
+             're-insertion) and LbBase.tla (open sequence, init gate); TLC counterexamples/behaviours replayed on the real Heap and Aperture '
+             'balancers (projection compare); real-code histories validated by TLC against BalancerAbsTrace')
+_BAL_NOTE = ('Trusted: mock channel sinks and server-set provider; Idle/Busy count as not open (as __Get does); close clauses judged at '
+             'quiescent points; duplicate nodes for one endpoint are not flagged.')
+CHECKS['C03'] = _mc('balancer', 'DESIGN.md 5/C03', _BAL_TECH,
+  'TLC enumerates all dispatch/complete/channel-flip/join/leave histories for 6-7 members incl. every random re-insertion position and checks '
+  'least-loaded-open dispatch and heap order; the unrepaired variant is kept as a counterexample generator (6 members, 7 dispatches) that is '
+  'replayed on the real class; seeded histories of both balancers are judged by TLC against reference outstanding counts.', _BAL_NOTE)
+CHECKS['C04'] = _mc('balancer', 'DESIGN.md 5/C04', _BAL_TECH,
+  'Load conservation per node object (incl. removed, draining ones) for every completion kind, no traffic after leave, close at once when idle or '
+  'down and exactly on drain otherwise are checked by TLC on the model and on every event of recorded real-code histories.', _BAL_NOTE)
+CHECKS['C05'] = _mc('balancer', 'DESIGN.md 5/C05', _BAL_TECH,
+  'All join/leave histories over 3-4 endpoint names (duplicates, unknown leaves, re-joins) interleaved with the open sequence are explored on '
+  'LbBase.tla; on the real balancers membership is compared with the reference set at every quiescent point and by a saturating probe, with '
+  'notifications landing while the initial list is loading.', _BAL_NOTE)
+
 PENDING = {}
 
 ALL = ['C%02d' % i for i in range(1, 21)]
